@@ -68,6 +68,16 @@ func c15Shapes(g *c14Gen) []c14Req {
 		{"POST", c14Api + "/solutions", c14Csv, sum},
 		{"GET", c14Api + "/model", "", ""},
 	}
+	// attribute values of every JSON kind, each patched TWICE under the same name (the second patch replaces an entry that
+	// already holds a value of that kind) and then replaced by a value of another kind
+	for _, val := range []string{`["draft","2026"]`, `{"a":1,"b":[true,null]}`, `[]`, `{}`, `[["x"],{"y":2}]`, `3.5`, `"text"`, `true`, `null`} {
+		body := `[{"Name":"Tags","Value":` + val + `}]`
+		fixed = append(fixed, c14Req{"PATCH", c14Api + "/model", c14Json, body}, c14Req{"PATCH", c14Api + "/model", c14Json, body},
+			c14Req{"GET", c14Api + "/model", "", ""})
+	}
+	fixed = append(fixed, c14Req{"PATCH", c14Api + "/model", c14Json, `[{"Name":"Tags","Value":["a"]},{"Name":"Tags","Value":["b"]}]`},
+		c14Req{"PATCH", c14Api + "/model", c14Json, `[{"Name":"Tags","Value":{"k":"v"}},{"Name":"Other","Value":["z"]}]`},
+		c14Req{"PATCH", c14Api + "/model", c14Json, `[{"Name":"Other","Value":["z"]}]`}, c14Req{"GET", c14Api + "/model", "", ""})
 	// model parameters written with another TOML type or at a boundary (a whole number for a decimal, a string, a bool,
 	// an array, a negative or huge value): whatever the engine thinks of them, it answers -- it never panics -- and a
 	// scenario answered 200 is served by GET /model afterwards
